@@ -201,6 +201,9 @@ def run(ctx):
             by.setdefault(("make_all_operators", COMMON_MOD, kind), []).append((what, None, dict(D=D)))
     jobs = []
     shapes = {1: [(3,), (1,), (4,)], 2: [(2, 3), (3, 3), (1, 4), (4, 2)], 3: [(2, 3, 4), (3, 3, 3), (1, 2, 3), (2, 2, 3)]}
+    if ctx.thorough():
+        shapes[2] += [(a, b) for a in range(1, 6) for b in range(1, 6) if (a, b) not in shapes[2]]
+        shapes[3] += [(4, 3, 2), (1, 1, 5), (2, 5, 3), (3, 1, 3)]
     for D in (1, 2, 3):
         G = group(D)
         for si, shape in enumerate(shapes[D]):
